@@ -252,3 +252,10 @@ ENTRIES += [
     B('nofollow-published-from-other-key', HTML, "            result_meta_info.get('robots_no_follow'))", "            result_meta_info.get('robots_nofollow'))", 'C20-D5b'),
     B('nofollow-verdict-not-handed-on', 'wpull/processor/rule.py', "                scraper, scrape_result, item_session, no_follow=no_follow\n", "                scraper, scrape_result, item_session\n", 'C20-D5b'),
 ]
+
+JS = 'wpull/scraper/javascript.py'
+ENTRIES += [
+    B('js-linked-only-when-known', JS, "LinkContext(link, inline=inline, linked=not inline,", "LinkContext(link, inline=bool(inline), linked=inline is False,", 'C20-D5b'),
+    B('js-linked-dropped', JS, "LinkContext(link, inline=inline, linked=not inline,", "LinkContext(link, inline=inline,", 'C20-D5b'),
+    N('js-linked-always', JS, "LinkContext(link, inline=inline, linked=not inline,", "LinkContext(link, inline=inline, linked=True,"),
+]
